@@ -25,7 +25,8 @@ def mk_sched(j):
     from snaxc.ir.dart.access_pattern import Schedule, SchedulePattern
     from snaxc.ir.dart.affine_transform import AffineTransform
     n = len(j["bounds"])
-    return Schedule(SchedulePattern(list(j["bounds"]), AffineTransform(_arr(o["A"], n), np.array(o["b"], dtype=np.int64)))
+    ncols = j.get("ncols", n)   # "ncols" != len(bounds): a malformed pattern for the real constructor to reject
+    return Schedule(SchedulePattern(list(j["bounds"]), AffineTransform(_arr(o["A"], ncols), np.array(o["b"], dtype=np.int64)))
                     for o in j["ops"])
 
 
@@ -356,6 +357,8 @@ def render_pass_module(case):
             ext = [max(ev(e, x) for x in pts) + 1 for e in op["expr0"]]
             mapl[0] = f"affine_map<({dims}) -> ({', '.join(expr_text(e) for e in op['expr0'])})>"
             mts[0] = "memref<" + "".join(f"{max(v, 1)}x" for v in ext) + tys[0] + ">"
+        if op.get("tensor"):   # operands that are not memrefs: AutoflowScheduler leaves the operation alone
+            mts = [mt.replace("memref<", "tensor<") for mt in mts]
         maps = ", ".join(mapl)
         args += [f"%t{i}_{k} : {mt}" for k, mt in enumerate(mts)]
         operands = ", ".join(f"%t{i}_{k}" for k in range(3))
@@ -467,6 +470,8 @@ def gen_pass_case(rng):
             ops.append({"bounds": b, "maps": [[m_, k_], [k_, n_], [m_, n_]]})
     if rng.random() < 0.3:
         rng.shuffle(ops)
+    if rng.random() < 0.12:
+        ops[rng.randrange(len(ops))]["tensor"] = True
     return {"kind": "pass", "acc": acc, "ops": ops}
 
 
@@ -480,6 +485,14 @@ def gen_construct_case(rng):
     if n and u < 0.75:
         for _ in range(rng.choice([1, 1, 2])):
             s["bounds"][rng.randrange(n)] = rng.choice([0, 0, 0, -1, -5])
+    if u >= 0.75 and u < 0.9 and s["ops"] and any(o["A"] for o in s["ops"]):
+        # number of bounds != number of matrix columns (AccessPattern.__init__ must raise)
+        s["ncols"] = n
+        if rng.random() < 0.5 and n:
+            s["bounds"] = s["bounds"][:-1]
+        else:
+            s["bounds"] = s["bounds"] + [rng.choice([1, 2, 4])]
+        n = len(s["bounds"])
     d_tile = rng.randrange(max(n, 1))
     b = s["bounds"][d_tile] if d_tile < n else 1
     return {"kind": "construct", "t": t, "s": s, "d_rot": rng.randint(1, max(n, 1)), "d_tile": d_tile,
@@ -625,8 +638,13 @@ def gen_xform_case(rng):
     b = s["bounds"][d_tile] if d_tile < n else 4
     divs = [x for x in range(1, b + 1) if b % x == 0]
     t = rng.choice(divs) if rng.random() < 0.75 else rng.choice([0, 1, 2, 3, 5, 7, b + 1])
+    u = rng.random()
+    cb = [rng.choice([1, 1, 2, 3, 4]) for _ in range(n if u < 0.85 else max(0, n + rng.choice([-1, 1])))]
+    if cb and rng.random() < 0.05:
+        cb[rng.randrange(len(cb))] = 0
     return {"kind": "xform", "s": s, "d_rot": rng.randint(0, n + 1) if rng.random() < 0.2 else rng.randint(1, max(n, 1)),
-            "d_tile": d_tile, "tf": t, "k": rng.randint(0, n + 2) if rng.random() < 0.3 else rng.randint(1, max(n, 1))}
+            "d_tile": d_tile, "tf": t, "k": rng.randint(0, n + 2) if rng.random() < 0.3 else rng.randint(1, max(n, 1)),
+            "custom": cb}
 
 
 def exhaustive_small_space():
@@ -668,6 +686,11 @@ class SchedProp(Prop):
                 "inner": guard(lambda: of_sched(s.inner_dims(case["k"]))),
                 "image": image_json(s),
             }
+            if "custom" in case:
+                out["clear_with"] = guard(lambda: of_sched(s.clear_unused_dims(tuple(case["custom"]))))
+                # PatternCollection.__eq__ / AffineTransform.__eq__: a schedule equals its canonical form iff nothing was dropped
+                out["eq_canon"] = guard(lambda: bool(s == s.canonicalize()) and bool(s.canonicalize() == s))
+                out["eq_self"] = guard(lambda: bool(s == mk_sched(case["s"])) and not bool(s == 3))
             return out
         if kind == "backtrack":
             return {"results": [of_sched(r) for r in run_backtrack(case)]}
@@ -708,7 +731,8 @@ class SchedProp(Prop):
                     {"fn": "c03.clear", "args": {"s": s}},
                     {"fn": "c03.canon", "args": {"s": s}},
                     {"fn": "c03.inner", "args": {"s": s, "k": case["k"]}},
-                    {"fn": "c03.image", "args": {"s": s}}]
+                    {"fn": "c03.image", "args": {"s": s}}] + (
+                        [{"fn": "c03.clear_with", "args": {"s": s, "bounds": case["custom"]}}] if "custom" in case else [])
         if kind == "backtrack":
             return [{"fn": "c03.backtrack", "args": {"t": case["t"], "s": case["s"], "k": case["k"],
                                                       "checks": case["checks"], "fuel": FUEL}}]
@@ -723,7 +747,7 @@ class SchedProp(Prop):
             sizes = [ELEM[ty] for ty in ACC_TYPES[case["acc"]]]
             return [{"fn": "c03.autoflow", "args": dict({"t": template_of(case), "s": pass_op_sched(op), "sizes": sizes,
                                                           "fuel": FUEL}, **({"expr0": parsed_exprs(len(op["bounds"]), op["expr0"])} if "expr0" in op else {}))}
-                    for op in case["ops"]]
+                    for op in case["ops"] if not op.get("tensor")]
         if kind == "match":
             return [{"fn": "c16.matches", "args": {"t": case["t"], "s": case["s"]}}]
         if kind == "check":
@@ -739,7 +763,11 @@ class SchedProp(Prop):
         kind = case["kind"]
         vals = [a["ok"] for a in answers]
         if kind == "xform":
-            return dict(zip(["rotate", "tile", "add_dim", "clear", "canon", "inner", "image"], vals))
+            m = dict(zip(["rotate", "tile", "add_dim", "clear", "canon", "inner", "image", "clear_with"], vals))
+            if "custom" in case:
+                m["eq_canon"] = m["canon"] == case["s"]   # equality of schedules = equality of (bounds, A, b)
+                m["eq_self"] = True
+            return m
         if kind in ("construct", "from_map"):
             return vals[0]
         if kind == "scheduler":
@@ -753,10 +781,12 @@ class SchedProp(Prop):
             return {"result": v[idx]} if idx < len(v) else {"raised": "IndexError"}
         if kind == "pass":
             # every operation is scheduled on its own; an operation without any schedule makes the pass raise
-            for v in vals:
+            it = iter(vals)
+            full = [{"unscheduled": True} if op.get("tensor") else next(it) for op in case["ops"]]
+            for v in full:
                 if isinstance(v, dict) and "raised" in v:
                     return v
-            return {"schedules": vals}
+            return {"schedules": full}
         key = {"backtrack": "results", "match": "matches", "check": "holds", "ocs": "holds"}[kind]
         v = vals[0]
         if isinstance(v, dict) and "raised" in v:
@@ -907,6 +937,11 @@ class C03(SchedProp):
             chk("add_dim()", lambda: s.add_dim())
             chk("clear_unused_dims()", lambda: s.clear_unused_dims())
             chk("canonicalize()", lambda: s.canonicalize())
+            cb = case.get("custom")
+            if cb is not None and len(cb) == n and all(b > 0 for b in cb):
+                # with custom bounds the box is replaced first: compare with the schedule on the custom box
+                base = image_of_json(dict(case["s"], bounds=cb))
+                chk(f"clear_unused_dims({cb})", lambda: s.clear_unused_dims(tuple(cb)))
         elif kind == "from_map":
             # whenever the real construction ACCEPTS a map, (A, b) must evaluate like the map (true semantics, incl.
             # floordiv / mod / ceildiv) on every point of the box; a ValueError is fine
@@ -976,7 +1011,8 @@ class C03(SchedProp):
                 return [{"what": f"{len(case['ops'])} operations but {len(scheds)} ops after dart-scheduler", "finding": None}]
             for i, (op, sj) in enumerate(zip(case["ops"], scheds)):
                 if "unscheduled" in sj:
-                    out.append({"what": f"operation #{i} was left unscheduled", "finding": None})
+                    if not op.get("tensor"):
+                        out.append({"what": f"operation #{i} was left unscheduled", "finding": None})
                     continue
                 if not same_multiset(image_of_json(sj), image_of_passop(op)):
                     desc = f"operand 0 indexed by ({', '.join(expr_text(e) for e in op['expr0'])}), " if "expr0" in op else ""
